@@ -58,7 +58,7 @@ int mzd_eq_pm(const mzd_t *A, const pm *a);
 int mzd_padding_dirty(const mzd_t *A);
 
 /* ---------- pattern alphabet ---------- */
-enum { P_Z, P_O, P_U, P_LBL, P_NLBL, P_CHK, P_ID, P_ANTI, P_PR, P_ROWSTRIPE, P_COLSTRIPE, P_WORDSTRIPE, P_SHID, P_UT, P_LT };
+enum { P_Z, P_O, P_U, P_LBL, P_NLBL, P_CHK, P_ID, P_ANTI, P_PR, P_ROWSTRIPE, P_COLSTRIPE, P_WORDSTRIPE, P_SHID, P_UT, P_LT, P_CYC, P_CYCT };
 typedef struct { int kind, a, b; } pat; /* U: (a,b) entry; LBL: bit a; PR: a = density code (0:1/2, 1:1/16, 2:15/16), b = salt */
 void pm_fill(pm *m, pat p);
 pm *pm_pat(int r, int c, pat p);
@@ -89,6 +89,7 @@ void vw_free(vwin *w);
 /* ---------- case runner ---------- */
 extern int vx_tier; /* 0 quick, 1 thorough */
 extern const char *vx_property;
+void vx_group(void); /* start a new group: all following cases (until the next vx_group) go to the same worker */
 int vx_case_begin(const char *fmt, ...) __attribute__((format(printf, 1, 2)));
 void vx_case_end(void);
 /* mark current case's input as nontrivial with the given digest (for distinct_nontrivial) */
